@@ -60,6 +60,9 @@ type Service struct {
 var errSvc = errors.New("kms: injected service error")
 
 func pageOf(total, cursor, want, real int) (n int) {
+	if want == -1 { // an empty page that still carries a continuation token
+		return 0
+	}
 	n = want
 	if n <= 0 || n > real {
 		n = real
@@ -137,7 +140,7 @@ func (s *Service) ListCryptoKeys(_ context.Context, r *kmspb.ListCryptoKeysReque
 		}
 	}
 	if cursor+n < len(s.Keys) {
-		resp.NextPageToken = fmt.Sprintf("t%d", cursor+n)
+		resp.NextPageToken = fmt.Sprintf("t%d", cursor+n) // also after an empty page: "t<cursor>" continues
 	}
 	return resp, nil
 }
@@ -342,6 +345,10 @@ func RunC20(run *vk.Run) {
 					s.VerPages = append(s.VerPages, h.N*block)
 					pages++
 				}
+				if h.Op == "ListEmpty" {
+					s.VerPages = append(s.VerPages, -1)
+					pages++
+				}
 				if h.Op == "ListErr" {
 					s.FailVerCall = pages + 1
 				}
@@ -457,16 +464,31 @@ func RunC20(run *vk.Run) {
 			for k := range sig {
 				sig[k] = byte(k*13 + 5)
 			}
+			// a wrong signature checksum is realised as every single-bit corruption of the 64-bit value the
+			// service reports (the CRC occupies the low 32 bits), and as an absent checksum
+			corrupt := []int{-1}
+			if !c.Flags.Sigcrc {
+				corrupt = nil
+				for b := 0; b < 64; b++ {
+					corrupt = append(corrupt, b)
+				}
+				corrupt = append(corrupt, 64) // absent
+			}
+			var flip int
 			s := &Service{}
 			s.Sign = func(r *kmspb.AsymmetricSignRequest) (*kmspb.AsymmetricSignResponse, error) {
 				if c.Flags.Svcerr {
 					return nil, errSvc
 				}
-				cr := crc(sig)
-				if !c.Flags.Sigcrc {
-					cr++
+				resp := &kmspb.AsymmetricSignResponse{Signature: sig, VerifiedDataCrc32C: c.Flags.Vdata, VerifiedDigestCrc32C: c.Flags.Vdigest}
+				switch {
+				case flip == 64:
+				case flip >= 0:
+					resp.SignatureCrc32C = wrapperspb.Int64(int64(uint64(crc(sig)) ^ (1 << uint(flip))))
+				default:
+					resp.SignatureCrc32C = wrapperspb.Int64(crc(sig))
 				}
-				return &kmspb.AsymmetricSignResponse{Signature: sig, SignatureCrc32C: wrapperspb.Int64(cr), VerifiedDataCrc32C: c.Flags.Vdata, VerifiedDigestCrc32C: c.Flags.Vdigest}, nil
+				return resp, nil
 			}
 			var opts crypto.SignerOpts
 			switch c.Flags.Opts {
@@ -480,16 +502,25 @@ func RunC20(run *vk.Run) {
 				opts = crypto.SHA256
 			}
 			signer := &gcpkms.Signer{Manager: manager(s)}
-			got, err := signer.Sign(ctx, keyName+"/cryptoKeyVersions/1", styp.Digest{SHA256: make([]byte, 32)}, opts)
 			allOK := c.Flags.Opts == "pss256salt32" && c.Flags.Sigcrc && c.Flags.Vdata && c.Flags.Vdigest && !c.Flags.Svcerr
-			if err == nil && !allOK {
-				run.Violation("sign-unchecked", fmt.Sprintf("Signer.Sign returned a signature although %+v", c.Flags), rep)
-			}
-			if err == nil && string(got) != string(sig) {
-				run.Violation("sign-unchecked", "Signer.Sign returned other bytes than the service's signature", rep)
-			}
-			if (err == nil) != (c.Ret == "signature") {
-				note("sign behaviour %s: real error %v, spec %s", em.Cases[i], err, c.Ret)
+			for _, flip = range corrupt {
+				got, err := signer.Sign(ctx, keyName+"/cryptoKeyVersions/1", styp.Digest{SHA256: make([]byte, 32)}, opts)
+				if err == nil && !allOK {
+					how := ""
+					if flip == 64 {
+						how = " (signature checksum absent)"
+					} else if flip >= 0 {
+						how = fmt.Sprintf(" (bit %d of the reported signature checksum flipped)", flip)
+					}
+					run.Violation("sign-unchecked", fmt.Sprintf("Signer.Sign returned a signature although %+v%s", c.Flags, how), rep)
+					break
+				}
+				if err == nil && string(got) != string(sig) {
+					run.Violation("sign-unchecked", "Signer.Sign returned other bytes than the service's signature", rep)
+				}
+				if (err == nil) != (c.Ret == "signature") {
+					note("sign behaviour %s: real error %v, spec %s", em.Cases[i], err, c.Ret)
+				}
 			}
 		}
 		run.Case(string(em.Cases[i]), len(c.Hist) > 1 || c.Mode == "sign")
@@ -520,7 +551,7 @@ func RunC20(run *vk.Run) {
 	}
 	// key-level listing loop of Manager.Wipeout around the page size
 	for _, nk := range []int{0, 1, 99, 100, 101, 150, 200, 250} {
-		for _, script := range [][]int{nil, {50}, {100, 50}, {50, 50, 50}} {
+		for _, script := range [][]int{nil, {50}, {100, 50}, {50, 50, 50}, {-1}, {50, -1, 50}, {-1, -1, 100}} {
 			s := &Service{Versions: map[string][]*kmspb.CryptoKeyVersion{}, Listed: map[string]int{}, KeyPages: script}
 			for k := 0; k < nk; k++ {
 				kn := fmt.Sprintf("projects/p/locations/l/keyRings/r/cryptoKeys/k%03d", k)
